@@ -112,9 +112,12 @@ pub fn run(rep: &mut Report, tier: &str, seed: u64) {
                 label.push(s.0);
             }
             code += step;
-            for nested in [false, true] {
+            for nest_mode in [0usize, 1, 2] {
+                // 0: one flat set; 1: odd-indexed globals in the enclosing set; 2: as 1, and the enclosing set ALSO holds every inner
+                // name with another value (the inner set shadows it: the supplied value is the inner one)
+                let nested = nest_mode != 0;
                 case_no += 1;
-                let key = format!("{:?} {:?} {} {}", ds, label, nested, stanzaless);
+                let key = format!("{:?} {:?} {} {}", ds, label, nest_mode, stanzaless);
                 rep.case(&key, supplied.iter().any(|s| s.is_some()) || ds.iter().any(|d| d.1));
                 if rep.samples.len() < 3 && case_no % 97 == 0 {
                     rep.sample(json!({"tsg": text, "supplied": label, "nested": nested}));
@@ -126,6 +129,12 @@ pub fn run(rep: &mut Report, tier: &str, seed: u64) {
                     let mut inn = Vec::new();
                     for (i, kv) in all.iter().enumerate() {
                         if i % 2 == 0 { o.push(kv.clone()) } else { inn.push(kv.clone()) }
+                    }
+                    if nest_mode == 2 {
+                        for kv in &inn {
+                            o.push((kv.0.clone(), Value::String("shadowed-value-of-the-enclosing-set".into())));
+                        }
+                        rep.count("nested-set-shadows-enclosing-set");
                     }
                     (inn, o)
                 } else {
@@ -155,7 +164,7 @@ pub fn run(rep: &mut Report, tier: &str, seed: u64) {
                     GLOBALS_CHANGED.with(|c| c.set(false));
                     let cfg = RunCfg { lazy, globals: inner.clone(), outer_globals: outer.clone(), debug: None, cancel_at: None };
                     let res = runner.check_mode(rep, &case, &cfg, true, false);
-                    let replay = json!({"tsg": text, "supplied": label, "nested": nested, "mode": mode, "expected": expect, "observed": res.run.outcome.pretty()});
+                    let replay = json!({"tsg": text, "supplied": label, "nested": nest_mode, "mode": mode, "expected": expect, "observed": res.run.outcome.pretty()});
                     if GLOBALS_CHANGED.with(|c| c.get()) {
                         rep.fail("direct", &format!("C16 {}: execution changed the caller's variable set", mode), true, replay.clone());
                     }
